@@ -133,7 +133,6 @@ struct FlowTable {
             size_t count = be16(d.buf + 34), fits = d.len >= 36 ? (d.len - 36) / 6 : 0, scan = std::min(count, fits);
             int ack = count == 0 ? 2 : 0;
             for (size_t i = 0; i < scan; i++) if (mac_at(d.buf + 36 + 6 * i) == own) ack = 1;
-            if (ack == 0 && count > fits) ack = 2;
             auto it = m.find(key);
             if (it != m.end()) { it->second.seq = be16(d.buf + OFF_SEQ); it->second.last_s = now_s; if (ack == 1) it->second.complete = 1; else if (ack == 2 && it->second.complete == 0) it->second.complete = 2; }
             else if (m.size() < 16) m[key] = E{be16(d.buf + OFF_SEQ), ack, now_s};
@@ -392,6 +391,7 @@ struct MonC04 : Monitor {
 struct MonC05 : Monitor {
     ArbTracker arb;
     const char *prop() const override { return "C05"; }
+    void on_op(World &, int, const Op &op) override { if (op.kind == OP_ATTR && (op.a[2] & 0x80000)) arb.m.erase((int)op.a[0]); } // re-created under a fresh context: no mapper, as after start-up
     void on_delivery(World &w, Delivery &d) override {
         if (d.ran) {
             uint8_t tos = d.buf[OFF_TOS], op = d.buf[OFF_OP];
@@ -701,6 +701,17 @@ struct MonC10 : Monitor {
                 if (expect[d.node].size() > 300) relaxed[d.node] = true;
             }
         } else if (op == W_RESET) { expect[d.node].clear(); relaxed[d.node] = false; }
+        else if (op == W_EMIT && !d.internal_fault && !d.from_responder) {
+            // the emitting half: an Emit that is being executed (at least one frame went out) must put every ordered frame on the wire -
+            // a frame that is never emitted can never be observed by the peer
+            size_t declared = be16(d.buf + 32), fits = d.len >= 34 ? (d.len - 34) / 14 : 0;
+            size_t sent = 0;
+            for (auto &tx : d.txs) if (tx.channel == 0 && !tx.refused && tx.data.size() >= 32 && (tx.data[OFF_OP] == W_PROBE || tx.data[OFF_OP] == W_TRAIN)) sent++;
+            bool kinds_ok = true;
+            for (size_t i = 0; i < declared && i < fits; i++) if (d.buf[34 + 14 * i] > 1) kinds_ok = false;
+            if (sent > 0 && declared >= 1 && declared <= fits && kinds_ok && sent < declared && !(node_getfail(w, d.node) & (G_MTU | G_MAC)))
+                w.violate("C10", "peer-probe-not-reported", fmt("an Emit with %zu descriptors was executed but only %zu frame(s) were put on the wire: the rest can never be observed by the peer", declared, sent));
+        }
         else if (op == W_QUERY) {
             if (d.internal_fault) { expect[d.node].clear(); return; }
             for (auto &tx : d.txs) {
@@ -761,7 +772,7 @@ struct MonC11 : Monitor {
             std::set<int> allowed;
             if (count == 0) { allowed = {changed ? 5 : 3, changed ? 4 : 2}; w.note("c11_empty_list"); }
             else if (pos >= 0) { allowed = {changed ? 5 : 3}; w.note("c11_acking"); w.note(pos == 0 ? "c11_pos_first" : (pos == (int)scan - 1 ? "c11_pos_last" : "c11_pos_middle")); }
-            else if (count > fits) { allowed = {changed ? 5 : 3, changed ? 4 : 2}; w.note("c11_overdeclared_list"); }
+            else if (count > fits) { allowed = {changed ? 4 : 2}; w.note("c11_overdeclared_list"); } // the entries the frame does not hold do not exist - a partial entry at the end, or bytes behind the frame, acknowledge nothing
             else { allowed = {changed ? 4 : 2}; w.note("c11_not_acking"); }
             if (changed) w.note("c11_changed_xid");
             if (scan >= 200) w.note("c11_long_list");
